@@ -1,4 +1,7 @@
-import TongoProofs.Lemmas.MerkleDict
+import TongoProofs.Lemmas.MerkleCompose
+import TongoProofs.Lemmas.MerkleHashmap
+import TongoProofs.C05
+import TongoProofs.C01
 /-! Property C18 — generated Merkle proofs commit to the original tree and reveal the value.
 
 Model: `Tongo.Merkle.pruneCells` / `createProof` / `walk` / `proveKey` (TongoModel/Merkle.lean) mirror
@@ -68,6 +71,36 @@ theorem proof_verifies (H : List UInt8 → List UInt8) (hH : H32 H) (P : List Na
     exact h4.1
   obtain ⟨ci, e, _, _, _, hm⟩ := (good_cell H _ (wfExotic_wfSizes _ hwc)).1 hdc
   exact ⟨ci, e, by rw [(hm 0 (by omega)).1, e1], by rw [(hm 0 (by omega)).2, e2]⟩
+
+/-- **The proof is a bag of cells whose root is a Merkle-proof cell** (end to end, composition with C01/C07, agent
+boc's writer and reader). Let `createProof` return `proof`, and let `t` be the ORDER in which `SerializeBoc` writes
+the proof's cells: a valid layout whose row 0 unfolds to `proof`. (This is the remaining premise about the writer:
+the order computed by importCell/reorderCells is not modelled — `C01.order_valid`; it is checked on every generated
+proof by parsing the real bytes.) Then the bytes `serializeBoc` writes for `CreateProof`'s option set (no index, no
+CRC, no cache bits) parse back, with the repaired reader, to exactly that table with root 0; row 0 is a
+Merkle-proof cell (type 3, level mask 0, one ref) whose data is `03 ++ hash₀(t) ++ depth₀(t)`; the root unfolds to
+`proof`; and hashing the parse result (`Table.infos`, what an independent verifier runs) gives the root the hashes of
+the definition. -/
+theorem proof_boc (H : List UInt8 → List UInt8) (hH : H32 H) (P : List Nat → Bool) (root proof : Cell)
+    (hp : plain root = true) (h : createProof H P root = .ok proof)
+    (t : Table) (hlay : Boc.ValidLayout t [0]) (hunf : Table.unfold t (t.size + 1) 0 = some proof)
+    (hn : t.size < 16777216) (hsz : 1 ≤ t.size)
+    (hlen : (Boc.Writer.serializeOrdered t [0] false false false []).length < Boc.two63) :
+    Boc.parseBoc (Boc.Writer.serializeOrdered t [0] false false false []) = .ok (t, [0]) ∧
+    (∃ row child, t[0]? = some row ∧ row.ty = tyMerkleProof ∧ row.mask = 0 ∧ row.refs.length = 1 ∧
+      row.bits = Bits.bytesToBits ([3] ++ Spec.hashAt H root 0 ++ be16 (Spec.depthAt root 0)) ∧
+      proof = proofCell (Spec.hashAt H root 0) (Spec.depthAt root 0) child ∧
+      Spec.hashAt H child 0 = Spec.hashAt H root 0 ∧ Spec.depthAt child 0 = Spec.depthAt root 0) ∧
+    (∃ info, (Table.infos H t)[0]? = some (.ok info) ∧
+      ∀ l, l ≤ 4 → info.hashAt l = .ok (Spec.hashAt H proof l) ∧ info.depthAt l = .ok (Spec.depthAt proof l)) := by
+  obtain ⟨_, h2, h3, h4⟩ := createProof_ok H hH P root hp h
+  obtain ⟨child, hc, e1, e2, _⟩ := proof_verifies H hH P root proof hp h
+  refine ⟨C01.roundtrip t [0] false false false [] hlay hn (by simp) (by simpa using hsz) hlen, ?_, ?_⟩
+  · rw [hc] at hunf
+    obtain ⟨row, r1, r2, r3, r4, r5⟩ := unfold_root_row t _ 0 _ _ _ _ hunf
+    exact ⟨row, child, r1, r2, r3, by simpa using r5, r4, hc, e1, e2⟩
+  · obtain ⟨info, e, hm, _⟩ := C02core H proof h3 h4
+    exact ⟨info, by rw [infos_refines H t _ 0 proof hunf, e], hm⟩
 
 /-- **No panic, and exactly when a proof is produced.** On supported trees `CreateProof` never panics for any
 prune set; it fails only with the depth error (the tree, or the proof cell on top of it, is too deep). -/
@@ -216,6 +249,98 @@ theorem value_revealed (H : List UInt8 → List UInt8) (hH : H32 H) (valueBits :
               exact (specPrune_hash0 H hH _ root [] hp c1).1
 
 
+/-- **The value is revealed — in terms of the dictionary's meaning** (composition with C05, agent dict's model of the
+TON `Hashmap n X` and of the library's decoder). Let the prover's root be the cell tree of ANY valid dictionary `t` of
+key width `n` (any mix of label forms), with values the codec decodes. If `ProveKeyInHashmap` returns `(v, proof)` for
+a key of `n` bits, then the key is in the dictionary, `get key` of its meaning is some `val` whose payload starts
+with `v`, and the library's own `Hashmap` decoder (`Hashmap.unmarshal`, which skips pruned branches) applied to the
+proof's child returns exactly the single entry `(key, val)`: the value decoded from the proof equals `get key` of the
+dictionary's meaning. Holds for every key width (no byte-multiple assumption). -/
+theorem value_revealed_dict {V : Type} (H : List UInt8 → List UInt8) (hH : H32 H) (C : Hashmap.Codec V)
+    (pay : V → List Bool × List Cell) (n : Nat) (hn : n < 2 ^ 64) (t : Hashmap.HTree V) (hv : t.Valid n)
+    (hdec : ∀ kv ∈ t.meaning, Hashmap.DecodesValue C pay kv.2)
+    (valueBits : Nat) (key v : List Bool) (proof : Cell) (hk : key.length = n)
+    (hp : plain (t.toCell pay n) = true) (h : proveKey H valueBits (t.toCell pay n) key = .ok (v, proof)) :
+    ∃ val child, Hashmap.get t.meaning key = some val ∧ v = (pay val).1.take valueBits ∧
+      proof = proofCell (Spec.hashAt H (t.toCell pay n) 0) (Spec.depthAt (t.toCell pay n) 0) child ∧
+      Hashmap.unmarshal C n child = .ok [(key, val)] ∧
+      Hashmap.get [(key, val)] key = Hashmap.get t.meaning key := by
+  subst hk
+  simp only [proveKey] at h
+  cases hi : Cell.info H (t.toCell pay key.length) with
+  | err x => rw [hi] at h; cases h
+  | panic x => rw [hi] at h; cases h
+  | ok info =>
+    rw [hi] at h
+    simp only [Outcome.bind_ok] at h
+    cases hw : walk key.length (key.length + 2) key.length (t.toCell pay key.length) [] key [] [] with
+    | err x => rw [hw] at h; cases h
+    | panic x => rw [hw] at h; cases h
+    | ok w =>
+      rw [hw] at h
+      simp only [Outcome.bind_ok] at h
+      obtain ⟨sfx, e1, e2, _, _⟩ := walk_spec H key.length _ _ _ [] key [] [] w hw rfl (by simp)
+      split at h
+      · cases h
+      · split at h
+        · cases h
+        · split at h
+          · cases h
+          · rename_i h1 h2 h3
+            simp only [List.nil_append] at e1
+            have hs : w.pfx = [] ++ key := by
+              have h3' : w.pfx.take key.length = key := by simpa using h3
+              rw [List.nil_append, ← h3']
+              exact (List.take_of_length_le e2).symm
+            obtain ⟨val, ext, g1, g2, g3, g4, g5⟩ := walk_htree H C pay key.length key.length hn t key.length _ [] key []
+              [] w hv rfl (by omega) (by simp) (Nat.le_refl _) hp hdec hw hs
+            cases hc : createProof H (fun p => w.pruned.contains p) (t.toCell pay key.length) with
+            | err x => rw [hc] at h; cases h
+            | panic x => rw [hc] at h; cases h
+            | ok pr =>
+              rw [hc] at h
+              simp only [Outcome.bind_ok, pure, Outcome.ok.injEq, Prod.mk.injEq] at h
+              obtain ⟨hval, hpr⟩ := h
+              subst hpr
+              obtain ⟨_, c2, _, _⟩ := createProof_ok H hH _ _ hp hc
+              have hdecode := g5 (fun p => w.pruned.contains p) (by intro q; simp) (by simp) [] (key.length + 1)
+                (by simp) (by omega)
+              have hget : Hashmap.get t.meaning key = some val := ((C05.get_spec t key.length hv key).1 val).mpr g1
+              have hpath : (fun p => w.pruned.contains p) ([] : List Nat) = false := by
+                cases hpp : w.pruned.contains ([] : List Nat) with
+                | false => simp only [hpp]
+                | true =>
+                  have : ([] : List Nat) ∈ w.pruned := by simpa using hpp
+                  rw [g3] at this
+                  simp only [List.nil_append] at this
+                  have := (g4 [] this).2
+                  simp at this
+              refine ⟨val, _, hget, ?_, c2, ?_, ?_⟩
+              · rw [← hval, g2]
+              · have hty : (specPrune H (fun p => w.pruned.contains p) [] (t.toCell pay key.length)).ty = 0 := by
+                  cases htc : t.toCell pay key.length with
+                  | mk a b c d =>
+                    have : a = 0 := by
+                      cases t <;> simp [Hashmap.HTree.toCell, Cell.ordinary] at htc <;> exact htc.1.symm
+                    subst this
+                    simp only [specPrune, hpath, Bool.false_eq_true, if_false, Cell.ty]
+                simp only [Hashmap.unmarshal, hty, show ¬ ((0 : Nat) = tyLibrary) from by decide, if_false]
+                simpa using hdecode
+              · rw [hget]; simp [Hashmap.get]
+
+/-- **An absent key yields no proof — in terms of the dictionary's meaning**, for every key width: if `get key` of
+the meaning of a valid dictionary is `none`, `ProveKeyInHashmap` on its cell tree returns no proof. -/
+theorem absent_key_errors_dict {V : Type} (H : List UInt8 → List UInt8) (hH : H32 H) (C : Hashmap.Codec V)
+    (pay : V → List Bool × List Cell) (n : Nat) (hn : n < 2 ^ 64) (t : Hashmap.HTree V) (hv : t.Valid n)
+    (hdec : ∀ kv ∈ t.meaning, Hashmap.DecodesValue C pay kv.2) (valueBits : Nat) (key : List Bool)
+    (hk : key.length = n) (hp : plain (t.toCell pay n) = true) (habs : Hashmap.get t.meaning key = none) :
+    ∀ r, proveKey H valueBits (t.toCell pay n) key ≠ .ok r := by
+  intro r hr
+  obtain ⟨v, proof⟩ := r
+  obtain ⟨val, _, hget, _⟩ := value_revealed_dict H hH C pay n hn t hv hdec valueBits key v proof hk hp hr
+  rw [habs] at hget
+  cases hget
+
 /-- **`ProveKeyInHashmap` does not panic** on supported trees whose cells have zero or at least two refs (leaves and
 forks of a dictionary): for every key, of any width. (On a cell with exactly one ref the walk can index
 `cursor.Ref(1)` out of range — `walk` models that panic; it is outside the dictionaries the property quantifies over.) -/
@@ -274,5 +399,9 @@ example : (dictLookup 10 8 exDict (Bits.natToBits 8 0x02)).isNone = true := by d
 example : (proveKey toyH 8 exDict (Bits.natToBits 8 0x01)).isOk = true := by decide +kernel
 example : (proveKey toyH 8 exDict (Bits.natToBits 8 0x02)).isErr = true := by decide +kernel
 example : (createProof toyH (fun p => p == [0, 1] || p == [1]) exDict).isOk = true := by decide +kernel
+/-- hypotheses of `value_revealed_dict` on agent dict's example dictionary (all three label forms, keys 0 and 3) -/
+example : plain (C05.exampleTree.toCell C05.u32Pay 8) = true ∧
+    (proveKey toyH 32 (C05.exampleTree.toCell C05.u32Pay 8) (Bits.natToBits 8 3)).isOk = true ∧
+    (proveKey toyH 32 (C05.exampleTree.toCell C05.u32Pay 8) (Bits.natToBits 8 1)).isErr = true := by decide +kernel
 
 end Tongo.C18
